@@ -64,6 +64,7 @@ fn main() {
     generate_code(&ucd_path, out_path);
 
     println!("cargo:rerun-if-changed=build.rs");
+    println!("cargo:rustc-check-cfg=cfg(precis_verif)");
 }
 
 #[cfg(not(feature = "networking"))]
@@ -77,4 +78,5 @@ fn main() {
     generate_code(&ucd_path, out_path);
 
     println!("cargo:rerun-if-changed=build.rs");
+    println!("cargo:rustc-check-cfg=cfg(precis_verif)");
 }
